@@ -131,6 +131,7 @@ class Analyzer:
         self.unknown_calls = set()
         self.notes = []
         self.stack = []
+        self.branch_hook = None
 
     # ---- abstract values -------------------------------------------------
     def new_slot(self, width):
@@ -776,6 +777,10 @@ class Analyzer:
         envt, envf = dict(env), dict(env)
         et, vt = self.expr(n["t"], envt)
         ef, vf = self.expr(n["f"], envf) if n.get("f") else (Ex(), ("unit",))
+        if self.branch_hook is not None:
+            hk = self.branch_hook(self, n["c"], vc, env)
+            if hk is not None:
+                et, ef = prefix(hk[0], et), prefix(hk[1], ef)
         # variables assigned in either branch become unknown unless both agree
         for key in set(envt) | set(envf):
             if envt.get(key) != envf.get(key):
